@@ -59,7 +59,7 @@ pub fn gen_c14_case(g: &mut G) -> Value {
     let mut c2 = conv_schema();
     c2["title"] = json!("Second Use");
     defs.insert("ConvHolder".into(), json!({"type": "object", "properties": {"c1": c1, "c2": {"type": "array", "items": c2}, "c3": {"type": "object", "additionalProperties": conv_schema()}}, "required": ["c1"]}));
-    defs.insert("MapHolder".into(), json!({"type": "object", "properties": {"m1": {"type": "object", "additionalProperties": {"type": "integer"}}, "m2": {"type": "object", "additionalProperties": t}, "many": {"type": "object"}}, "required": ["m1"]}));
+    defs.insert("MapHolder".into(), json!({"type": "object", "properties": {"m1": {"type": "object", "additionalProperties": {"type": "integer"}}, "m2": {"type": "object", "additionalProperties": t}, "many": {"type": "object"}, "keyed": {"type": "object", "propertyNames": {"pattern": "^[a-z]+$"}}}, "required": ["m1"]}));
     // unaffected types from the faithful grammar (no reference to Target, no CONV schema)
     let mut cfg = gs::Cfg::faithful();
     cfg.max_defs = 3;
@@ -289,7 +289,7 @@ impl Property for C14 {
             }
         }
         let map_path = s.map_type.clone().unwrap_or_else(|| "::std::collections::HashMap".into()).replace(' ', "");
-        for (item, f) in [("MapHolder", "m1"), ("MapHolder", "m2"), ("User", "map"), ("ConvHolder", "c3")] {
+        for (item, f) in [("MapHolder", "m1"), ("MapHolder", "m2"), ("MapHolder", "keyed"), ("User", "map"), ("ConvHolder", "c3")] {
             match field_ty(ix, item, f) {
                 Some(ty) if ty.starts_with(&format!("{map_path}<")) => {}
                 other => v.push(Violation::new("map-type-not-applied", format!("{item}.{f}: type {:?}, expected {map_path}<..>", other))),
@@ -359,7 +359,7 @@ impl Property for C14 {
             && ["User", "UnionExt", "UnionInt", "UnionAdj", "ConvHolder", "MapHolder"].iter().all(|d| doc.pointer(&format!("/definitions/{d}")).map(|x| x.to_string().len() > 40).unwrap_or(false))
             && doc.pointer("/definitions/User/properties").and_then(|p| p.as_object()).map(|p| p.len() == 6).unwrap_or(false)
             && doc.pointer("/definitions/ConvHolder/properties").and_then(|p| p.as_object()).map(|p| p.len() == 3).unwrap_or(false)
-            && doc.pointer("/definitions/MapHolder/properties").and_then(|p| p.as_object()).map(|p| p.len() == 3).unwrap_or(false)
+            && doc.pointer("/definitions/MapHolder/properties").and_then(|p| p.as_object()).map(|p| p.len() == 4).unwrap_or(false)
             && (kind != "struct" || doc.pointer("/definitions/Merged/allOf").and_then(|a| a.as_array()).map(|a| a.len() == 2).unwrap_or(false))
             && case.settings.replace.values().all(|r| r.ty == REPL)
             && case.settings.convert.iter().all(|c| {
